@@ -42,7 +42,38 @@ from harness.engine_suites import COMPLETE, CONTINUABLE, HALT, Runner, Trace, pa
 
 # Signatures (without the `synth:<prop>:` prefix) that fire on the UNCHANGED tree, were adjudicated as real engine defects
 # and wait for a decision: the oracle stays, the REPORTING is off unless VERIF_SYNTH_PENDING=1.  fnmatch patterns.
-PENDING: list[str] = []
+PENDING: list[str] = [
+    # P1 (pause dimension; C05, C17)  CompleteWorkflow handled while the workflow row is PAUSED computes SUCCEEDED / TERMINAL and calls
+    #     set_workflow_status: PAUSED -> SUCCEEDED / TERMINAL is not in the transition table, InvalidStateTransitionError on every
+    #     delivery, the message ends in the DLQ (complete_workflow.py, on_execution; models/status.py PAUSED row).  After store.resume()
+    #     nothing is left to finish the workflow: RUNNING with every stage settled, queue empty; a canceled one never becomes final.
+    #     Proposed: proposed_fixes/P1-completeworkflow-finishes-a-paused-workflow.proposed.diff
+    "pause:C05:wedged:CW-dead-lettered:InvalidStateTransitionError-while-workflow-PAUSED",
+    "pause:C17:cancel-not-final:RUNNING@CW-dead-lettered:InvalidStateTransitionError-while-workflow-PAUSED",
+    "pause:C17:cancel-not-final:PAUSED@CW-dead-lettered:InvalidStateTransitionError-while-workflow-PAUSED",
+]
+# S11 (F53 a49b63f), S12 (F54 c44ff70), S13 (F55 9677b69) were gated here until they were repaired; reported again since then:
+#   # S11 (C17)  CancelStage for a stage that is already complete returns at once and fans out to nobody (cancel_stage.py, the
+#   #     "already complete" early return; F49 added the fan-out only behind it).  A parent that failed through ONE before / after-stage
+#   #     (its CompleteStage(parent) is queued ahead of the cancel's CancelStage(parent)) therefore leaves its other started children
+#   #     as they are: a SUSPENDED one stays SUSPENDED for ever.  Proposed: proposed_fixes/S11-cancelstage-on-settled-parent-...diff
+#   #     (before-stages only: a failed after-stage next to a SUSPENDED one leaves the parent RUNNING - "in flight children" -
+#   #     and the cancel's CancelStage(parent) then reaches it and fans out)
+#   "unfinished-stage-ends:before:SUSPENDED>SUSPENDED:parent-ended-TERMINAL",
+#   # S12 (C05, C01 ...)  an after-stage that ends FAILED_CONTINUE completes its parent itself (complete_stage/handler.py, "FAILED_CONTINUE
+#   #     propagation to parent") and never starts its chained successor (A1 -> A2): A2 stays NOT_STARTED, determine_status()
+#   #     answers RUNNING for the parent, CompleteStage(parent) is dropped as stale, queue empty - in plain in-order delivery.
+#   #     Proposed: proposed_fixes/S12-failed-continue-after-stage-starts-its-chained-successor.proposed.diff
+#   "wedged:chained-after-stage-never-started-behind-FAILED_CONTINUE-link",
+#   "stuck-until-wait-budget:chained-after-stage-never-started-behind-FAILED_CONTINUE-link",
+#   "wedged:chained-after-stage-never-started-behind-FAILED_CONTINUE-link:taskless-parent",
+#   "stuck-until-wait-budget:chained-after-stage-never-started-behind-FAILED_CONTINUE-link:taskless-parent",
+#   # S13 (C05 ...)  StageExecution.determine_status for a stage WITHOUT tasks and before-stages asks "is an after-stage NOT_STARTED / RUNNING?"
+#   #     before it looks for a halted one (models/stage/stage.py, the `not core_statuses` branch): with a chain A1 -> A2 whose A1 ends
+#   #     TERMINAL, A2 is never started, the answer stays RUNNING, CompleteStage(parent) is dropped as stale: wedged in order.
+#   #     (The same order in the branch for stages WITH tasks is the round-5 seeded C05 change.)  Proposed: proposed_fixes/S13-...diff
+#   "wedged:chained-after-stage-never-started-behind-TERMINAL-link:taskless-parent",
+#   "stuck-until-wait-budget:chained-after-stage-never-started-behind-TERMINAL-link:taskless-parent",
 # S10 (C12, fixed by F52 42f7a42): ContinueParentStage marked a parent TERMINAL without recording a stage event; signature
 #     synth:replay-mismatch:stage:store=TERMINAL:replay=RUNNING:written-by-ContinueParentStage
 # History: the patterns below fired on /repo 2858e20 and were gated here while they waited for a decision.  All of them were
@@ -96,6 +127,7 @@ class Lay:
         self.n = len(spec.stages)
         self.kids = spec.children()
         self.total = self.n + len(self.kids)
+        self.reqs = spec.child_reqs()          # per child: stage index of the sibling it is chained behind, or None
 
     def parent(self, i: int) -> int | None:
         return None if i < self.n else self.kids[i - self.n][0]
@@ -105,6 +137,9 @@ class Lay:
 
     def children_of(self, p: int, owner: str | None = None) -> list[int]:
         return [self.n + c for c, (par, own, _) in enumerate(self.kids) if par == p and (owner is None or own == owner)]
+
+    def req(self, i: int) -> int | None:
+        return None if i < self.n else self.reqs[i - self.n]
 
     def role(self, i: int) -> str:
         if i >= self.n:
@@ -137,6 +172,16 @@ class SRunner(Runner):
     for ever; here it is retried max_attempts times, then op `q` runs the REAL check_and_move_expired()."""
 
     def apply(self, op: tuple) -> None:
+        if op[0] in ("p", "u", "r"):
+            # operator pause / unpause / resume (Engine.pause / unpause / resume = store.pause, Orchestrator.unpause, store.resume)
+            {"p": self.e.pause, "u": self.e.unpause, "r": self.e.resume}[op[0]]()
+            t = self.t
+            t.ops.append(op[0])
+            t.outcomes.append("ok")
+            t.op_msg.append(None)
+            t.op_inner.append([])
+            self._record(None)
+            return
         if op[0] == "q":
             moved = self.e.queue.check_and_move_expired()
             t = self.t
@@ -155,8 +200,8 @@ class SRunner(Runner):
 
 
 def s_apply_str(r: SRunner, o: str) -> None:
-    if o == "q":
-        r.apply(("q",))
+    if o in ("q", "p", "u", "r"):
+        r.apply((o,))
     else:
         es._apply_str(r, o)
 
@@ -193,14 +238,22 @@ def gen_synth_spec(rng: random.Random, suspend: bool = True, directed: str | Non
             nb, na = rng.choice([(1, 0), (0, 1), (1, 1), (1, 1), (2, 0), (0, 2), (2, 1), (1, 2)])
             st.synth = [{"owner": "B", "tasks": [list(rng.choice(pool))]} for _ in range(nb)] + \
                        [{"owner": "A", "tasks": [list(rng.choice(pool))]} for _ in range(na)]
+            # a CHAIN instead of two parallel siblings: the second before- / after-stage has the first one as its requisite
+            if nb == 2 and rng.random() < 0.45:
+                st.synth[1]["req"] = 0
+            if na == 2 and rng.random() < 0.45:
+                st.synth[nb + 1]["req"] = nb
         stages.append(st)
+    def plain(ch: dict) -> dict:
+        return {k_: v for k_, v in ch.items() if k_ != "req"}
+
     if directed == "after":
         # the parent-waits-for-its-after-stage window: a parent with own tasks and an after-stage, optionally next to another root
         stages[0].tasks = stages[0].tasks or [["S"]]
-        stages[0].synth = [x for x in (stages[0].synth or []) if x["owner"] == "B"][:1] + [{"owner": "A", "tasks": [list(rng.choice(pool))]}]
+        stages[0].synth = [plain(x) for x in (stages[0].synth or []) if x["owner"] == "B"][:1] + [{"owner": "A", "tasks": [list(rng.choice(pool))]}]
     if directed == "before":
         stages[0].tasks = stages[0].tasks or [["S"]]
-        stages[0].synth = [{"owner": "B", "tasks": [list(rng.choice(pool))]}] + [x for x in (stages[0].synth or []) if x["owner"] == "A"][:1]
+        stages[0].synth = [{"owner": "B", "tasks": [list(rng.choice(pool))]}] + [plain(x) for x in (stages[0].synth or []) if x["owner"] == "A"][:1]
     return Spec(stages)
 
 
@@ -227,15 +280,6 @@ def order_violations(t: Trace, lay: Lay) -> list[tuple[str, str]]:
     st = ["NOT_STARTED"] * lay.total
     ts = {(i, j): "NOT_STARTED" for i in range(lay.total) for j in range(len(lay.scripts(i)))}
     out = []
-    # StartStage rows for children that a recovery sweep pushed (S4): row ids that appear in the queue during a `w` op
-    swept: set[str] = set()
-    for k, o in enumerate(t.ops):
-        if o == "w":
-            before = {x.split(":")[0] for x in parse_line(t.lines[k])["queue"]}
-            for x in parse_line(t.lines[k + 1])["queue"]:
-                rid, code = x.split(":")[0], x.split(":")[1].split("/")[0]
-                if rid not in before and code.startswith("SS.") and code_stage(code) is not None and code_stage(code) >= lay.n:
-                    swept.add(rid)
     for k, op, msg, (ent, old, new) in es.audit_by_op(t):
         if ent[0] == "S" and ent[1:].isdigit():
             i = int(ent[1:])
@@ -244,16 +288,17 @@ def order_violations(t: Trace, lay: Lay) -> list[tuple[str, str]]:
                 if lay.owner(i) == "B" and st[p] != "RUNNING":
                     out.append(("before-stage-started-while-parent-not-running", f"before-stage {i} of stage {p} was started by {msg or op} while the parent was {st[p]}"))
                 if lay.owner(i) == "A":
-                    core_done = all(ts[(p, j)] in COMPLETE for j in range(len(lay.scripts(p)))) and all(st[b] in COMPLETE for b in lay.children_of(p, "B"))
+                    core = [ts[(p, j)] for j in range(len(lay.scripts(p)))] + [st[b] for b in lay.children_of(p, "B")]
+                    # done, or DECIDED: a before-stage / task failed and continuePipelineOnFailure turns that into FAILED_CONTINUE,
+                    # after which CompleteStage(parent) starts the after-stages without running the remaining tasks
+                    core_done = all(x in COMPLETE for x in core) or any(x in HALT for x in core)
                     if st[p] != "RUNNING" or not core_done:
                         out.append(("after-stage-started-before-parent-work-finished",
                                     f"after-stage {i} of stage {p} was started by {msg or op} while the parent was {st[p]} with tasks "
                                     f"{[ts[(p, j)] for j in range(len(lay.scripts(p)))]} and before-stages {[st[b] for b in lay.children_of(p, 'B')]}"))
-                m_ = re.match(r"[dxkn](\d+)", op)
-                if m_ and m_.group(1) in swept and not (out and out[-1][1].startswith(("before-stage " + str(i), "after-stage " + str(i)))):
-                    out.append(("child-started-by-recovery-sweep",
-                                f"{lay.role(i)}-stage {i} of stage {p} was started by a StartStage the recovery sweep had pushed (row {m_.group(1)}), "
-                                f"not by its parent (parent {st[p]} at that moment)"))
+                if lay.req(i) is not None and st[lay.req(i)] not in CONTINUABLE:
+                    out.append(("chained-child-started-before-its-sibling-finished",
+                                f"{lay.role(i)}-stage {i} is chained behind stage {lay.req(i)} and was started by {msg or op} while that one was {st[lay.req(i)]}"))
             st[i] = new
         elif ent[0] == "T" and "?" not in ent:
             i, j = (int(x) for x in ent[1:].split("."))
@@ -283,12 +328,25 @@ def s_wedge_cause(t: Trace, fin: dict, lay: Lay) -> str:
     ov = order_violations(t, lay)
     if ov:
         return ov[0][0]
+    if t.meta.get("pause") is not None:
+        dl = dead_letters(t)
+        if dl:
+            return dl[0][0]          # the message that would have driven the workflow on was lost to the DLQ
     for p in range(lay.n):
         a = fin["stages"][p]
         if a["status"] != "RUNNING" or not lay.children_of(p):
             continue
         core = list(a["tasks"]) + [fin["stages"][b]["status"] for b in lay.children_of(p, "B")]
         after = [fin["stages"][c]["status"] for c in lay.children_of(p, "A")]
+        for c in lay.children_of(p):
+            r_ = lay.req(c)
+            if r_ is not None and fin["stages"][c]["status"] == "NOT_STARTED" and fin["stages"][r_]["status"] in COMPLETE \
+                    and all(fin["stages"][b]["status"] in COMPLETE for b in lay.children_of(p, "B") if lay.owner(c) == "A") \
+                    and (lay.owner(c) == "B" or all(x in COMPLETE for x in a["tasks"])):
+                # a chain of before- / after-stages whose earlier link is finished while the later one was never started, the
+                # parent still RUNNING: nobody starts the later link and nobody completes the parent around it
+                taskless = ":taskless-parent" if not a["tasks"] and not lay.children_of(p, "B") else ""
+                return f"chained-{lay.role(c)}-stage-never-started-behind-{fin['stages'][r_]['status']}-link{taskless}"
         if any(x in HALT for x in core) and after and all(x == "NOT_STARTED" for x in after):
             # CompleteStage(parent) on a failed core counts the never-started pre-declared after-stages as "in flight"
             return "failed-parent-waits-for-unstarted-after-stage"
@@ -323,6 +381,15 @@ def smon_c05(t: Trace) -> list[tuple[str, str]]:
     fin = t.final()
     sts = [s["status"] for s in fin["stages"]]
     top = sts[:lay.n]
+    pm = t.meta.get("pause")
+    if pm is not None and fin["wf"] not in COMPLETE and (fin["wf"] == "PAUSED" or "PAUSED" in sts):
+        if not pm.get("unpaused"):
+            return hits          # paused and nobody un-paused it: explicitly waiting (for the resume)
+        # the operator un-paused (and kept at it, settle_pause) and the queue is empty: nothing will ever lift this pause
+        parked = sorted({lay.role(i) for i, x in enumerate(sts) if x == "PAUSED"})
+        hits.append((f"still-paused-after-unpause:workflow-{fin['wf']}:parked-{'+'.join(parked) or 'none'}",
+                     f"un-paused, queue empty, but workflow {fin['wf']} with stages {sts}: the pause is never lifted"))
+        return hits
     if fin["wf"] not in COMPLETE and not es.waiting_explicitly(fin):
         hits.append((f"wedged:{s_wedge_cause(t, fin, lay)}",
                      f"queue empty, workflow {fin['wf']}, top-level stages {top}, children {sts[lay.n:]}: neither final nor explicitly waiting"))
@@ -422,6 +489,10 @@ def smon_c17(t: Trace) -> list[tuple[str, str]]:
             elif role == "plain":
                 kind = "taskless" if not a["tasks"] else "with-tasks"
             sig = f"unfinished-stage-ends:{kind}:{a['status']}>{b['status']}"
+            if i >= lay.n and fin["stages"][lay.parent(i)]["status"] in ("TERMINAL", "STOPPED", "SUCCEEDED", "FAILED_CONTINUE", "SKIPPED"):
+                # the child was never reached by a CancelStage because its parent settled (failed through a sibling child, ...)
+                # before the cancel's CancelStage(parent) was handled, and a CancelStage for a settled stage fans out to nobody
+                sig += f":parent-ended-{fin['stages'][lay.parent(i)]['status']}"
             if b["status"] != a["status"]:
                 sig += f":by-{set_by(i, b['status'])}"
                 after_fin = [fin["stages"][c]["status"] for c in lay.children_of(i, "A")] if i < lay.n else []
@@ -500,7 +571,10 @@ def smon_c01(t: Trace) -> list[tuple[str, str]]:
         # the uninterrupted run itself contains a parent stuck by S1 / S2 (hidden by another branch ending the workflow): the
         # recovery sweep sometimes un-sticks it, so the crash run legitimately differs from that reference
         where = "ref:" + ref["latent"][0]
-    reordered = bool(t.meta.get("hold")) or t.meta.get("crashes", 1) > 1
+    # the recovery sweep re-pushes messages (since F48 also StartStage for never-started before-stages of a RUNNING parent, besides the
+    # duplicates for RUNNING stages): in-order delivery of those shifts every later message, i.e. the crash run IS reordered
+    swept_any = any(o == "w" and len(parse_line(t.lines[k_ + 1])["queue"]) > len(parse_line(t.lines[k_])["queue"]) for k_, o in enumerate(t.ops))
+    reordered = bool(t.meta.get("hold")) or t.meta.get("crashes", 1) > 1 or swept_any
     halting = any(o[0] in "TX" for _, sc in lay.all_scripts() for o in sc)
     race_dependent = reordered and halting
     if not got["quiesced"]:
@@ -614,7 +688,7 @@ def smon_c10(t: Trace) -> list[tuple[str, str]]:
     return hits
 
 
-S_OUTCOME = {"smon_c05", "smon_c17", "smon_c01", "smon_c02_outcome", "smon_c10", "mon_c18"}
+S_OUTCOME = {"smon_c05", "smon_c17", "smon_c01", "smon_c02_outcome", "smon_c10", "mon_c18", "pmon_c18"}
 S_MONITORS = {
     "C05": [smon_c05, es.mon_c06],
     "C17": [smon_c17, es.mon_c06],
@@ -623,7 +697,52 @@ S_MONITORS = {
     "C10": [smon_c10, es.mon_c06],
     "C18": [es.mon_c18, es.mon_c06],
 }
-_BY_NAME = {m.__name__: m for ms in S_MONITORS.values() for m in ms}
+def pmon_c18(t: Trace) -> list[tuple[str, str]]:
+    """engine_suites.mon_c18 on traces of the pause dimension.  A target that is parked (PAUSED) at the end - woken by its signal
+    or not yet suspended, then parked by a RunTask that found the workflow PAUSED - in a run nobody un-paused has neither lost a
+    signal nor resumed without one: it waits for the resume.  Only the "left SUSPENDED by something else" clause is judged there."""
+    fin = t.final()
+    tgt = t.meta.get("signal_stage")
+    if tgt is not None and (fin["stages"][tgt]["status"] == "PAUSED" or fin["wf"] == "PAUSED"):
+        return [h for h in es.mon_c18(t) if h[0].startswith("suspended-left-by")]
+    return es.mon_c18(t)
+
+
+def dead_letters(t: Trace) -> list[tuple[str, str]]:
+    """messages the dead-letter rule removed (op q), each with the exception its handler raised and the workflow status it
+    raised under: (name, description).  A message that raises on every delivery is lost; whatever it was to do never happens."""
+    out = []
+    for k, o in enumerate(t.ops):
+        if o != "q":
+            continue
+        before = {x.split(":")[0]: x.split(":")[1].split("/")[0] for x in parse_line(t.lines[k])["queue"]}
+        after = {x.split(":")[0] for x in parse_line(t.lines[k + 1])["queue"]}
+        for rid, code in before.items():
+            if rid in after:
+                continue
+            exc, wf = "?", "?"
+            for j in range(k - 1, -1, -1):
+                m_ = re.match(r"[dxn](\d+)", t.ops[j])
+                if m_ and m_.group(1) == rid and t.outcomes[j].startswith("raised:"):
+                    exc, wf = t.outcomes[j].split(":", 1)[1], parse_line(t.lines[j])["wf"]
+                    break
+            out.append((f"{code.split('.')[0]}-dead-lettered:{exc}-while-workflow-{wf}",
+                        f"{code} raised {exc} on every delivery while the workflow was {wf} and was moved to the DLQ (row {rid})"))
+    return out
+
+
+# the pause / resume dimension (plain AND synthetic-stage workflows; signatures prefixed `pause:`)
+P_MONITORS = {
+    "C06": [es.mon_c06],
+    "C05": [smon_c05, es.mon_c06],
+    "C17": [smon_c17, es.mon_c06],
+    "C18": [pmon_c18, es.mon_c06],
+}
+_BY_NAME = {m.__name__: m for ms in list(S_MONITORS.values()) + list(P_MONITORS.values()) for m in ms}
+
+
+def monitors_for(prop: str, family: str):
+    return (P_MONITORS if family == "pause" else S_MONITORS)[prop]
 
 
 # --------------------------------------------------------------------------------------
@@ -908,6 +1027,9 @@ def produce_c18s(rng: random.Random, wd: Path) -> dict:
     if rng.random() < 0.4:
         kids.append({"owner": "A" if own == "B" else "B", "tasks": [["S"]]})
     stages[par].synth = sorted(kids, key=lambda c: c["owner"] != "B")
+    same = [j for j, c in enumerate(stages[par].synth) if c["owner"] == own]
+    if len(same) == 2 and rng.random() < 0.35:
+        stages[par].synth[same[1]]["req"] = same[0]        # a chain: the second child of that kind waits for the first
     if own == "A" and not stages[par].tasks and rng.random() < 0.5:
         stages[par].tasks = [["S"]]
     spec = Spec(stages)
@@ -944,6 +1066,194 @@ def produce_c18s(rng: random.Random, wd: Path) -> dict:
     return es.pack(t)
 
 
+def gen_pause_spec(rng: random.Random, prop: str) -> tuple[Spec, dict]:
+    """workloads of the pause / resume dimension: plain workflows (engine_suites.gen_spec family w0: AND DAG, outcomes S T F R E X,
+    sometimes one suspending task) AND synthetic-stage ones; for C18 the signal workloads (one suspending target: a top-level
+    stage as in produce_c18, or a child as in produce_c18s)"""
+    meta: dict = {}
+    if prop == "C18":
+        if rng.random() < 0.5:
+            n = rng.randint(1, 3)
+            tgt = rng.randrange(n)
+            stages = [StageSpec(reqs=sorted(rng.sample(range(i), min(rng.choice([0, 1, 1]), i))), tasks=[["S"] for _ in range(rng.choice([1, 1, 2]))]) for i in range(n)]
+            k = rng.choice([1, 1, 2])
+            ti = rng.randrange(len(stages[tgt].tasks))
+            stages[tgt].tasks[ti] = ["U"] * k + ["S"]
+            return Spec(stages), {"signal_stage": tgt, "signal_task": ti, "suspends": k}
+        n = rng.choice([1, 1, 2])
+        stages = [StageSpec(reqs=([i - 1] if i and rng.random() < 0.6 else []), tasks=[["S"] for _ in range(rng.choice([0, 1, 1]))]) for i in range(n)]
+        par, own, k = rng.randrange(n), rng.choice(["B", "A"]), rng.choice([1, 1, 2])
+        kids = [{"owner": own, "tasks": [["U"] * k + ["S"]]}]
+        if rng.random() < 0.4:
+            kids.append({"owner": own, "tasks": [["S"]]})
+        stages[par].synth = kids
+        spec = Spec(stages)
+        return spec, {"signal_stage": len(stages), "signal_task": 0, "suspends": k}
+    if rng.random() < 0.5:
+        spec = es.gen_spec(rng, "w0")
+        for st in spec.stages:
+            st.enabled = None if st.enabled is False and rng.random() < 0.7 else st.enabled
+        if rng.random() < 0.35:
+            st = rng.choice(spec.stages)
+            st.tasks[rng.randrange(len(st.tasks))] = ["U", "S"]
+        return spec, meta
+    return gen_synth_spec(rng, suspend=True, directed=rng.choice([None, None, "after", "before"])), meta
+
+
+def produce_pause(prop: str, rng: random.Random, wd: Path) -> dict:
+    """One trace of the pause / resume dimension.  Ops: p = store.pause (only while the workflow is RUNNING), u = Orchestrator.unpause,
+    r = store.resume; injected at random steps into the schedule modes fifo | rand | dup | starve, combined with a cancel (always
+    for C17; often issued together with the un-pause), signals for suspending tasks (C18: for the target, also while paused), and
+    redelivery.  With probability 0.2 nobody un-pauses (the workflow may stay PAUSED: explicitly waiting); otherwise the operator
+    keeps at it until nothing is paused (settle_pause)."""
+    spec, meta = gen_pause_spec(rng, prop)
+    lay = Lay(spec)
+    r = SRunner(spec, wd)
+    mode = rng.choice(["fifo", "rand", "rand", "dup", "starve"])
+    tgt = meta.get("signal_stage")
+    susp = [i for i, sc in lay.all_scripts() if "U" in sc]
+    pause_at = rng.randint(1, 8 + 3 * lay.total)
+    second_pause = rng.random() < 0.15
+    will_unpause = rng.random() >= 0.2
+    unpause_after = rng.choice([0, 1, 2, 3, 5, 8, 10 ** 6])          # deliveries between pause and un-pause; 10**6 = at quiescence only
+    cancel_mode = None
+    if prop == "C17" or rng.random() < (0.35 if prop in ("C06", "C05") else 0.1):
+        cancel_mode = rng.choice(["with-unpause", "with-unpause", "while-paused", "random"])
+    cancel_at = rng.randint(0, 10 + 4 * lay.total) if cancel_mode == "random" else None
+    nsig = 0 if tgt is None else rng.choice([1, 1, 2, 3])
+    sig_plan = [rng.choice(["early", "while-paused", "while-paused", "late"]) for _ in range(nsig)]
+    paused_since = None
+    unpaused = False
+    victim = None
+    step = 0
+    canceled = False
+
+    def wf_status() -> str:
+        return r.t.lines[-1].split(";")[0].split("=")[1].split(",")[0]
+
+    def send_signals(kind: str) -> None:
+        for x in [x for x in sig_plan if x == kind]:
+            sig_plan.remove(x)
+            r.apply(("g", tgt, rng.random() < 0.7))
+
+    for _ in range(300):
+        st = wf_status()
+        if paused_since is None and pause_at is not None and step >= pause_at and st == "RUNNING":
+            if tgt is not None and rng.random() < 0.5 and parse_line(r.t.lines[-1])["stages"][tgt]["status"] != "SUSPENDED" and r.eligible(True):
+                pause_at += 1                       # C18: prefer to pause once the target is suspended
+            else:
+                r.apply(("p",))
+                paused_since = step
+                pause_at = (step + rng.randint(3, 12)) if second_pause else None
+                second_pause = False
+                send_signals("while-paused")
+                if cancel_mode == "while-paused" and not canceled:
+                    r.apply(("c",))
+                    canceled = True
+        if tgt is not None and "early" in sig_plan and step >= 2:
+            send_signals("early")
+        if cancel_at is not None and step >= cancel_at and not canceled:
+            r.apply(("c",))
+            canceled = True
+        if paused_since is not None and will_unpause and step - paused_since >= unpause_after:
+            if cancel_mode == "with-unpause" and not canceled:
+                # an operator cancels while another one un-pauses
+                for o in rng.sample(["c", "u"], 2):
+                    r.apply((o,))
+                canceled = True
+            else:
+                r.apply(("u",))
+            unpaused = True
+            paused_since = None
+        p = r.eligible(True)
+        if not p:
+            if paused_since is not None and will_unpause:
+                unpause_after = 0
+                continue
+            if sig_plan and tgt is not None:
+                send_signals(sig_plan[0])
+                continue
+            if susp and tgt is None and any(x["status"] == "SUSPENDED" for x in parse_line(r.t.lines[-1])["stages"]) and rng.random() < 0.8:
+                w_ = [i for i, x in enumerate(parse_line(r.t.lines[-1])["stages"]) if x["status"] == "SUSPENDED"]
+                r.apply(("g", w_[0], rng.random() < 0.5))
+                continue
+            if unpaused:
+                before = len(r.t.ops)
+                settle_pause(r, rng if mode in ("rand", "dup") else None, "rand" if mode in ("rand", "dup") else "fifo")
+                if len(r.t.ops) > before:
+                    continue
+            break
+        if mode == "starve":
+            if victim is None and rng.random() < 0.2:
+                victim = rng.choice(p)[0]
+            if victim is not None and any(x[0] != victim for x in p):
+                p = [x for x in p if x[0] != victim]
+            elif victim is not None:
+                victim = None
+        rid = p[0][0] if mode in ("fifo", "starve") else rng.choice(p)[0]
+        if mode == "dup" and rng.random() < 0.2:
+            r.apply(("x", rid))
+        else:
+            r.apply(("d", rid))
+        step += 1
+    t = r.finish()
+    kinds = "".join(k_ for k_ in "pur" if k_ in t.ops)
+    t.tag = (f"pause/{'synth' if lay.kids else 'plain'}/{mode}" + ("+cancel" if "c" in t.ops else "") + ("+signal" if any(o[0] == "g" for o in t.ops) else "")
+             + ("" if "p" in t.ops else ":never-paused") + ("" if unpaused or "p" not in t.ops else ":nobody-unpaused"))
+    del kinds
+    t.meta = dict(meta, pause={"unpaused": unpaused or "p" not in t.ops})
+    t.respecting = True
+    return es.pack(t)
+
+
+def produce_pause_parked(prop: str, rng: random.Random, wd: Path) -> dict:
+    """Directed member of the pause dimension: 2-3 parallel stages are all PARKED (pause while their RunTask rows are queued;
+    RunTask -> PauseTask -> stage and task PAUSED), then the operators act - un-pause, or cancel and un-pause at about the same
+    time - and everything is delivered in random order (with redelivery): the CancelStage / ResumeStage / CompleteWorkflow
+    races on parked stages."""
+    n = rng.choice([2, 2, 3])
+    stages = [StageSpec(tasks=[["S"] for _ in range(rng.choice([1, 1, 2]))]) for _ in range(n)]
+    if rng.random() < 0.3:
+        stages.append(StageSpec(reqs=list(range(n)), tasks=[["S"]]))
+    if rng.random() < 0.3:
+        stages[0].synth = [{"owner": rng.choice(["B", "A"]), "tasks": [["S"]]}]
+    spec = Spec(stages)
+    lay = Lay(spec)
+    r = SRunner(spec, wd)
+    for _ in range(80):
+        non_rt = [x for x in r.eligible(True) if not x[1].startswith("RT.")]
+        if not non_rt:
+            break
+        r.apply(("d", non_rt[0][0]))
+    if parse_line(r.t.lines[-1])["wf"] == "RUNNING":
+        r.apply(("p",))
+    for _ in range(40):
+        park = [x for x in r.eligible(True) if x[1].startswith(("RT.", "PT."))]
+        if not park or rng.random() < 0.08:
+            break
+        r.apply(("d", rng.choice(park)[0]))
+    acts = rng.choice([["u"], ["c", "u"], ["u", "c"], ["c", "u"], ["u", "c"]]) if prop != "C17" else rng.choice([["c", "u"], ["u", "c"], ["c"]])
+    for o in acts:
+        r.apply((o,))
+    dup = rng.random() < 0.3
+    for _ in range(300):
+        p = r.eligible(True)
+        if not p:
+            before = len(r.t.ops)
+            if "u" in acts:
+                settle_pause(r, rng, "rand")
+            if len(r.t.ops) == before:
+                break
+            continue
+        rid = rng.choice(p)[0]
+        r.apply(("x" if dup and rng.random() < 0.15 else "d", rid))
+    t = r.finish()
+    t.tag = f"pause/parked/{'synth' if lay.kids else 'plain'}/rand" + ("+cancel" if "c" in t.ops else "") + ("" if "u" in acts else ":nobody-unpaused")
+    t.meta = {"pause": {"unpaused": "u" in acts}}
+    t.respecting = True
+    return es.pack(t)
+
+
 def _worker(args) -> dict:
     prop, seed, count, tier = args
     core.ensure_repo_on_path()
@@ -956,7 +1266,10 @@ def _worker(args) -> dict:
     try:
         for j in range(count):
             try:
-                if prop == "C02":
+                if prop.endswith(":pause"):
+                    base = prop.split(":")[0]
+                    out.append(produce_pause_parked(base, rng, wd) if (base != "C18" and j % 3 == 2) else produce_pause(base, rng, wd))
+                elif prop == "C02":
                     out.extend(produce_c02s(rng, wd))
                 elif prop == "C10":
                     out.extend(produce_c10s(rng, wd, tier))
@@ -990,6 +1303,8 @@ def _signatures(t: Trace, mons) -> list[tuple[str, str, str]]:
         for sig, what in m(t):
             if ov is None:
                 ov = order_violations(t, Lay(t.spec))
+                if t.meta.get("pause") is not None:
+                    ov = ov + dead_letters(t)        # pause dimension: a message lost to the DLQ explains what follows
             if ov and ov[0][0] not in sig:
                 sig, what = f"{sig}@{ov[0][0]}", f"{what} [earlier in this trace: {ov[0][1]}]"
             out.append((m.__name__, sig, what))
@@ -1054,14 +1369,37 @@ def sym_ops(t: Trace) -> list[tuple]:
         elif kind == "g":
             a, b = o[1:].split(".")
             out.append(("g", int(a), b == "1"))
-        elif kind in "cwq":
+        elif kind in "cwqpur":
             out.append((kind,))
     return out
 
 
-def run_sym(spec: Spec, ops: list[tuple], wd: Path, drain: bool = True) -> tuple[Trace, int]:
+def settle_pause(r: SRunner, rng: random.Random | None = None, mode: str = "fifo") -> None:
+    """The operator who asked for the un-pause keeps at it (the idiom of the repo's demos / tests): while the workflow or a stage
+    is still PAUSED at quiescence: Orchestrator.unpause (one ResumeStage per stage parked by now), drain; if the workflow row is
+    still PAUSED with nothing parked: store.resume, drain.  At most three rounds."""
+    for _ in range(3):
+        if r.pending():
+            r.drain(rng, mode, max_steps=300)
+        fin = parse_line(r.t.lines[-1])
+        if r.pending() or fin["wf"] in COMPLETE:
+            return
+        parked = any(x["status"] == "PAUSED" for x in fin["stages"])
+        if fin["wf"] != "PAUSED" and not parked:
+            return
+        if parked:
+            r.apply(("u",))
+            r.drain(rng, mode, max_steps=300)
+            fin = parse_line(r.t.lines[-1])
+        if fin["wf"] == "PAUSED" and not r.pending() and not any(x["status"] == "PAUSED" for x in fin["stages"]):
+            r.apply(("r",))
+            r.drain(rng, mode, max_steps=300)
+
+
+def run_sym(spec: Spec, ops: list[tuple], wd: Path, drain: bool = True, settle: bool = False) -> tuple[Trace, int]:
     """execute symbolic ops (an op whose message is not pending is skipped), then drain in order; returns (trace, number of
-    concrete ops that came from `ops`)"""
+    concrete ops that came from `ops`); `settle`: the trace belongs to the pause family and an un-pause was requested, so the
+    drain includes the operator's settle loop (settle_pause)"""
     r = SRunner(spec, wd)
 
     def find(code):
@@ -1091,6 +1429,8 @@ def run_sym(spec: Spec, ops: list[tuple], wd: Path, drain: bool = True) -> tuple
     if drain:
         r.e.expire_locks()
         r.drain(None, "fifo", max_steps=300)
+        if settle:
+            settle_pause(r)
     return r.finish(), nprefix
 
 
@@ -1139,6 +1479,12 @@ def _spec_variants(spec: Spec):
         par = lay.kids[c][0]
         nth = sum(1 for cc in range(c) if lay.kids[cc][0] == par)
         del sp.stages[par].synth[nth]
+        for ch in sp.stages[par].synth:
+            if ch.get("req") is not None:
+                if ch["req"] == nth:
+                    del ch["req"]
+                elif ch["req"] > nth:
+                    ch["req"] -= 1
         if not sp.stages[par].synth:
             sp.stages[par].synth = None
         m = dict(ident)
@@ -1177,6 +1523,10 @@ def _spec_variants(spec: Spec):
                 sp = copy.deepcopy(spec)
                 sp.stages[i].synth[c]["tasks"] = [["S"]]
                 yield sp, ident
+            if ch.get("req") is not None:
+                sp = copy.deepcopy(spec)
+                del sp.stages[i].synth[c]["req"]
+                yield sp, ident
         if spec.stages[i].cont:
             sp = copy.deepcopy(spec)
             sp.stages[i].cont = False
@@ -1193,7 +1543,7 @@ def s_shrink(t: Trace, mon, sig: str, wd: Path, budget: int = 200) -> dict | Non
     def attempt(spec: Spec, ops: list[tuple], meta: dict):
         tries[0] += 1
         try:
-            tt, npre = run_sym(spec, ops, wd)
+            tt, npre = run_sym(spec, ops, wd, settle=bool((meta.get("pause") or {}).get("unpaused")))
             tt.meta = fresh_meta(spec, meta, wd)
             tt.respecting = t.respecting
             ok = any(s_ == sig for _, s_, _ in _signatures(tt, [mon]))
@@ -1281,7 +1631,7 @@ def run_witness(rp: dict, wd: Path) -> Trace:
     if rp.get("exact"):
         return s_replay_trace(spec, rp["ops"], wd, rp.get("meta"), rp.get("respecting", True), fresh_ref=True)
     if rp.get("sym") is not None:
-        t, _ = run_sym(spec, sym_from_json(rp["sym"]), wd)
+        t, _ = run_sym(spec, sym_from_json(rp["sym"]), wd, settle=bool(((rp.get("meta") or {}).get("pause") or {}).get("unpaused")))
     else:
         r = SRunner(spec, wd)
         m_ = re.match(r"ops\[:(\d+)\]", rp.get("schedule_then_in_order_drain") or "")
@@ -1325,18 +1675,22 @@ def corpus(prop: str) -> list[Trace]:
     return out
 
 
-def run_for(ctx, prop: str) -> None:
-    """the synthetic-stage family for `prop`: produce traces in worker processes, apply the monitors, report"""
+def run_for(ctx, prop: str, family: str = "synth") -> None:
+    """the synthetic-stage family (family="synth") or the pause / resume dimension (family="pause") for `prop`: produce traces in
+    worker processes, apply the monitors, report"""
     import logging
     import time
 
     t0 = time.time()
     logging.disable(logging.CRITICAL)
-    total = {"C05": ctx.n(480, 1600), "C17": ctx.n(480, 3200), "C01": ctx.n(64, 64),
-             "C02": ctx.n(128, 800), "C10": ctx.n(40, 64), "C18": ctx.n(480, 3200)}[prop]
+    if family == "pause":
+        total = {"C06": ctx.n(640, 3200), "C05": ctx.n(640, 3200), "C17": ctx.n(640, 3200), "C18": ctx.n(640, 3200)}[prop]
+    else:
+        total = {"C05": ctx.n(480, 1600), "C17": ctx.n(480, 3200), "C01": ctx.n(64, 64),
+                 "C02": ctx.n(128, 800), "C10": ctx.n(40, 64), "C18": ctx.n(480, 3200)}[prop]
     nproc = min(16, max(1, os.cpu_count() or 1))
     per = max(1, total // nproc)
-    jobs = [(prop, f"{ctx.seed}:{i}", per, ctx.tier) for i in range(nproc)]
+    jobs = [(prop + (":pause" if family == "pause" else ""), f"{ctx.seed}:{i}", per, ctx.tier) for i in range(nproc)]
     traces: list[Trace] = []
     errors = []
     with ProcessPoolExecutor(max_workers=nproc) as ex:
@@ -1348,30 +1702,42 @@ def run_for(ctx, prop: str) -> None:
                     traces.append(es.unpack(d))
     if errors:
         raise core.Infra("synthetic-stage trace production failed: " + errors[0][-1500:])
-    traces = corpus(prop) + traces
-    consume(ctx, prop, traces)
-    fam = ctx.extra.setdefault("synthetic_stage_family", {"model": "none (implementation-only monitors)", "traces": 0, "per_mode": {}, "wall_s": 0.0})
+    if family == "synth":
+        traces = corpus(prop) + traces
+    consume(ctx, prop, traces, family)
+    fam = ctx.extra.setdefault("synthetic_stage_family" if family == "synth" else "pause_resume_dimension",
+                               {"model": "none (implementation-only monitors)", "traces": 0, "per_mode": {}, "wall_s": 0.0})
     fam["traces"] += len(traces)
     for t in traces:
         mode = t.tag.split("/", 1)[-1].split(":")[0]
         fam["per_mode"][mode] = fam["per_mode"].get(mode, 0) + 1
     fam["wall_s"] = round(fam["wall_s"] + time.time() - t0, 1)
-    fam["monitors"] = [m.__name__ for m in S_MONITORS[prop]]
+    fam["monitors"] = [m.__name__ for m in monitors_for(prop, family)]
     fam["pending_signature_patterns_not_reported"] = [] if os.environ.get("VERIF_SYNTH_PENDING") == "1" else list(PENDING)
 
 
-def consume(ctx, prop: str, traces: list[Trace]) -> None:
-    mons = S_MONITORS[prop]
+def consume(ctx, prop: str, traces: list[Trace], family: str = "synth") -> None:
+    mons = monitors_for(prop, family)
+    pfx = "pause" if family == "pause" else "synth"
     report_pending = os.environ.get("VERIF_SYNTH_PENDING") == "1"
     wd = None
     seen_pending: Counter = Counter()
     for t in traces:
         lay = Lay(t.spec)
         nontrivial = len(t.ops) >= 8 and (any(o[0] != "d" for o in t.ops) or t.ops != sorted(t.ops, key=lambda o: int(o[1:]) if o[1:].isdigit() else 0))
-        ctx.count(["synth", t.spec.to_json(), t.ops], nontrivial=nontrivial)
-        ctx.tag("model-free:synthetic-stages", "synth:sched:" + t.tag.split("/", 1)[-1].split(":")[0], "synth:wf:" + t.final()["wf"],
-                "synth:quiesced" if t.quiesced else "synth:cut")
-        ctx.tag("synth:children:" + "".join(sorted(own for _, own, _ in lay.kids)))
+        ctx.count([pfx, t.spec.to_json(), t.ops], nontrivial=nontrivial)
+        if family == "pause":
+            ctx.tag("model-free:pause-resume", "pause:sched:" + t.tag.split("/", 1)[-1], "pause:wf:" + t.final()["wf"],
+                    "pause:quiesced" if t.quiesced else "pause:cut")
+            for o in set(x for x in t.ops if x in ("p", "u", "r", "c")):
+                ctx.tag("pause:op:" + o)
+            for k_ in range(1, len(t.lines)):
+                if t.ops[k_ - 1][0] in "dxn" and t.lines[k_ - 1].split(";")[0].startswith("W=PAUSED") and t.op_msg[k_ - 1]:
+                    ctx.tag("pause:handled-while-PAUSED:" + t.op_msg[k_ - 1].split(".")[0])
+        else:
+            ctx.tag("model-free:synthetic-stages", "synth:sched:" + t.tag.split("/", 1)[-1].split(":")[0], "synth:wf:" + t.final()["wf"],
+                    "synth:quiesced" if t.quiesced else "synth:cut")
+            ctx.tag("synth:children:" + "".join(sorted(own for _, own, _ in lay.kids)))
         for m in mons:
             if m.__name__ in S_OUTCOME and not t.respecting:
                 ctx.tag("synth:not-judged(non-respecting):" + m.__name__)
@@ -1387,8 +1753,8 @@ def consume(ctx, prop: str, traces: list[Trace]) -> None:
                 for i in range(lay.n, lay.total):
                     ctx.tag(f"synth:cancel-accepted-with-{lay.role(i)}-stage:{at['stages'][i]['status']}")
         for mname, sig, what in _signatures(t, mons):
-            full_sig = f"synth:{prop}:{sig}"
-            if pending(sig) and not report_pending:
+            full_sig = f"{pfx}:{prop}:{sig}"
+            if (pending(sig) or pending(full_sig)) and not report_pending:
                 seen_pending[full_sig] += 1
                 continue
             if any(h["signature"] == full_sig for h in ctx.monitor_hits):
@@ -1410,7 +1776,8 @@ def consume(ctx, prop: str, traces: list[Trace]) -> None:
                                            "monitor": mname, "signature": sig, "respecting": t.respecting, "meta": smeta, "tag": t.tag,
                                            "children": [{"index": slay.n + c, "parent": par, "owner": own} for c, (par, own, _) in enumerate(slay.kids)]})
     if traces:
-        ctx.sample({"suite": "synthetic-stages (implementation-only)", **{k: v for k, v in traces[0].to_json().items() if k != "spec_line"}})
+        ctx.sample({"suite": ("pause / resume dimension" if family == "pause" else "synthetic-stages") + " (implementation-only)",
+                    **{k: v for k, v in traces[0].to_json().items() if k != "spec_line"}})
     for sig, n in seen_pending.items():
         ctx.tag("synth-pending(not reported; VERIF_SYNTH_PENDING=1 reports it):" + sig)
         ctx.tags["synth-pending(not reported; VERIF_SYNTH_PENDING=1 reports it):" + sig] += n - 1
@@ -1466,10 +1833,11 @@ def replay(ctx, body: dict) -> int:
         print(f"  start: {es.short(t.lines[0])}")
         for k, o in enumerate(t.ops):
             print(f"  op {k + 1}: {o:>6} [{t.op_msg[k]}] -> {es.short(t.lines[k + 1])}")
-        mons = [_BY_NAME[rp["monitor"]]] if rp.get("monitor") in _BY_NAME else S_MONITORS.get(rp.get("prop") or ctx.prop, [])
+        pfx = "pause" if (rp.get("meta") or {}).get("pause") is not None else "synth"
+        mons = [_BY_NAME[rp["monitor"]]] if rp.get("monitor") in _BY_NAME else (P_MONITORS if pfx == "pause" else S_MONITORS).get(rp.get("prop") or ctx.prop, [])
         rc = 0
         for mname, sig, what in _signatures(t, mons):
-            print(f"FAILS {mname}: synth:{rp.get('prop') or ctx.prop}:{sig}: {what}")
+            print(f"FAILS {mname}: {pfx}:{rp.get('prop') or ctx.prop}:{sig}: {what}")
             rc = 1
         if rc == 0:
             print("replay: property held on this input")
@@ -1489,7 +1857,8 @@ def _cli() -> None:
     logging.disable(logging.CRITICAL)
     if sys.argv[1] == "sweep":
         prop, seed = sys.argv[2], sys.argv[3]
-        total = int(sys.argv[4]) if len(sys.argv) > 4 else {"C05": 480, "C17": 480, "C01": 64, "C02": 128, "C10": 40, "C18": 480}[prop]
+        fam_ = "pause" if prop.endswith(":pause") else "synth"
+        total = int(sys.argv[4]) if len(sys.argv) > 4 else (640 if fam_ == "pause" else {"C05": 480, "C17": 480, "C01": 64, "C02": 128, "C10": 40, "C18": 480}[prop])
         nproc = min(16, os.cpu_count() or 1)
         jobs = [(prop, f"{seed}:{i}", max(1, total // nproc), "quick") for i in range(nproc)]
         cnt: Counter = Counter()
@@ -1503,14 +1872,14 @@ def _cli() -> None:
                         continue
                     t = es.unpack(d)
                     ntr += 1
-                    for mname, sig, what in _signatures(t, S_MONITORS[prop]):
+                    for mname, sig, what in _signatures(t, monitors_for(prop.split(":")[0], fam_)):
                         cnt[sig] += 1
                         first.setdefault(sig, {"spec": t.spec.to_json(), "ops": t.ops, "what": what, "monitor": mname, "meta": t.meta, "tag": t.tag,
                                                "respecting": t.respecting})
         print(f"{prop} seed {seed}: {ntr} traces")
         for sig, n in cnt.most_common():
             print(f"  {n:4d}  {sig}")
-        Path(f"/tmp/synth_census_{prop}_{seed}.json").write_text(json.dumps(first, indent=1, default=str))
+        Path(f"/tmp/synth_census_{prop.replace(':', '-')}_{seed}.json").write_text(json.dumps(first, indent=1, default=str))
         return
     if sys.argv[1] == "witness":
         # python -m harness.synth_suites witness <prop> <seed>: run the family with pending signatures REPORTED, minimise, dump
@@ -1527,7 +1896,9 @@ def _cli() -> None:
     prop = sys.argv[1]
     spec = Spec.from_json(json.loads(sys.argv[2]))
     ops = sys.argv[3].split(",")
-    print(replay(type("C", (), {"prop": prop})(), {"kind_synth": True, "exact": True, "prop": prop, "spec": spec.to_json(), "ops": ops, "meta": {}}))
+    meta = json.loads(sys.argv[4]) if len(sys.argv) > 4 else ({"pause": {"unpaused": True}} if prop.endswith(":pause") else {})
+    prop = prop.split(":")[0]
+    print(replay(type("C", (), {"prop": prop})(), {"kind_synth": True, "exact": True, "prop": prop, "spec": spec.to_json(), "ops": ops, "meta": meta}))
 
 
 if __name__ == "__main__":
